@@ -10,7 +10,9 @@
 EXTENDS LinForm, TLC, Json
 CONSTANTS NP, NE,        \* initial leaf points / leaf expressions
           Depth,         \* maximal number of well-typed operations
-          IllTyped       \* TRUE: also generate the one-step programs with operands of undocumented kinds
+          IllTyped,      \* TRUE: also generate the one-step programs with operands of undocumented kinds
+          Focus          \* "all": every well-typed program; "small": only the depth-3 programs that scale a point by the 4th
+                         \* scalar, square / pair it, and then push the resulting SMALL coefficient through one more operator
 \* ---- objects
 Pt(p) == [k |-> "pt", p |-> p, e |-> ZeroE(NP, NE), sense |-> "-"]
 Ex(e) == [k |-> "ex", p |-> ZeroV(NP), e |-> e, sense |-> "-"]
@@ -144,9 +146,16 @@ IllOps ==
   IN {o \in all : /\ Apply(o, InitObjs).k = "raises"
                   /\ ~DivByZero(o)
                   /\ (o.op = "eq" => "ex" \in {Kind(o.a, InitObjs), Kind(o.b, InitObjs)})}
+Last == Len(objs)
+Uses(o, i) == (o.a.t = "obj" /\ o.a.i = i) \/ (o.b.t = "obj" /\ o.b.i = i)
+InFocus(o) == \/ Focus = "all"
+              \/ Len(hist) = 0 /\ o.op \in {"mul", "imul"} /\ 4 \in {IF o.a.t = "sc" THEN o.a.i ELSE 0, IF o.b.t = "sc" THEN o.b.i ELSE 0}
+                               /\ "pt" \in {Kind(o.a, objs), Kind(o.b, objs)}
+              \/ Len(hist) = 1 /\ o.op \in {"sq", "mul"} /\ Uses(o, Last) /\ Kind(o.a, objs) = "pt" /\ (o.op = "sq" \/ Kind(o.b, objs) = "pt")
+              \/ Len(hist) = 2 /\ Uses(o, Last)
 Next == /\ ~done
         /\ \/ /\ Len(hist) < Depth
-              /\ \E o \in {w \in WellTyped : ~DivByZero(w)} :
+              /\ \E o \in {w \in WellTyped : ~DivByZero(w) /\ InFocus(w)} :
                     objs' = Append(objs, Apply(o, objs)) /\ hist' = Append(hist, o) /\ done' = FALSE
            \/ /\ IllTyped /\ hist = <<>>
               /\ \E o \in IllOps : objs' = Append(objs, Apply(o, objs)) /\ hist' = Append(hist, o) /\ done' = TRUE
